@@ -205,6 +205,8 @@ def impl_level_failures(adapter, pid, items, ctx):
 
 def run_env_property(ctx: Ctx, proofs_ok: bool, pid: str, only=None):
     tier = ctx.tier
+    from vt.common import only_units
+    only = only or only_units()
     for adapter in adapters():
         if pid not in adapter.props or (only and adapter.name not in only):
             continue
